@@ -80,6 +80,8 @@ def _scenario(seed: int) -> dict[str, Any]:
 
     async def main() -> None:
         backend = AsyncIOBackend()
+        # (a failing coroutine whose future was cancelled is reported to the loop's exception handler: expected here, keep stderr clean)
+        asyncio.get_running_loop().set_exception_handler(lambda loop, context: None)
         try:
             async with backend.create_threads_portal() as portal:
                 portal_box["portal"] = portal
